@@ -96,6 +96,7 @@ def scenarios(res, scratch, tier, seed):
                       "penddial": rnd.choice([0, 1]) if kind == "core" else 0,
                       "dialto": rnd.choice([0, 0, 1]) if kind == "core" else 0,
                       "sendfile": rnd.choice([0, 1, 2]) if kind == "core" else 0,
+                      "wfail": rnd.choice([0, 0, 1, 2]) if kind == "core" else 0,
                       "transfer": rnd.choice([0, 2]) if kind == "http-blk" else 0,
                       "race": race, "delayus": rnd.choice([0, 50, 300, 2000]), "stopper": rnd.choice(["stop", "shutdown"])})
     res.notes.append("simulated behaviours by race class: %s" % classes)
@@ -130,7 +131,7 @@ def report(res, lines, viol, byid, leg):
 def run(res, scratch, *, tier, seed, replay):
     res.coverage["rule"] = ("cases = engine lives: behaviours of EngineLife.tla sampled by TLC's simulator, classified by the order of "
                             "their key actions and forced on real engines (core nbio, nbhttp non-blocking / blocking / mixed; LT/ET/"
-                            "one-shot; 1-4 pollers, 1-2 listeners; histories of idle, writing (8 MiB backlog), file-sending (16 MiB Sendfile queued), deadline-carrying, "
+                            "one-shot; 1-4 pollers, 1-2 listeners; histories of idle, writing (8 MiB backlog), file-sending (16 MiB Sendfile queued), write-failed (peer reset under the writes), deadline-carrying, "
                             "dialed, still-connecting, timed-out-dial and transferred connections; Stop or Shutdown; races: Stop right after Start, accept "
                             "completed before and delivered after the listener close (0-2000 us), slow OnOpen, connection storm, "
                             "peers closing, application closing, DialAsync racing); non-trivial = a life with a race or >= 3 "
@@ -294,6 +295,17 @@ def sim_scripts(res, scratch, tier, seed, adversarial=False):
                 steps.append({"a": name, "c": arg, "k": kind})
                 xs.append({"table": len(st["table"]["$set"]), "opened": st["opened"], "notified": st["notified"], "spc": st["spc"]})
                 prev = st
+            if adversarial and len(scripts) % 2 == 1:
+                # split every addition: AddConn begins (passes its "engine stopped?" check) at an earlier point of the schedule
+                rnd = random.Random(seed * 31 + len(scripts))
+                out = []
+                for st in steps:
+                    if st["a"] == "DAdd":
+                        lo = max([k + 1 for k in range(len(out)) if out[k]["a"] == "LBegin" and out[k]["c"] == "ev"] or [len(out)])
+                        out.insert(rnd.randint(min(lo, len(out)), len(out)), {"a": "DAddBegin", "c": st["c"], "k": ""})
+                    out.append(st)
+                if len(out) != len(steps):
+                    steps, xs = out, []      # (no model states for the split schedule)
             key = tuple((s["a"], s["c"]) for s in steps)
             if key in seen:
                 continue
